@@ -36,9 +36,9 @@ NAMES = {
     "child.children.value": ("child.children.items.value", ("child", "children"), True),
 }
 MUTS = {
-    "child": ["child=", "child=None", "grandchild=", "child_children_append", "bad_registration"],
-    "children": ["append", "insert", "del", "setitem", "reverse", "sort", "clear", "assign_list", "bad_registration"],
-    "mapping": ["map_set", "map_del", "map_update_mixed", "map_assign", "bad_registration"],
+    "child": ["child=", "child=None", "grandchild=", "child_children_append", "bad_registration", "del_child"],
+    "children": ["append", "insert", "del", "setitem", "reverse", "sort", "clear", "assign_list", "bad_registration", "del_children"],
+    "mapping": ["map_set", "map_del", "map_update_mixed", "map_assign", "bad_registration", "del_mapping"],
 }
 
 
@@ -88,6 +88,11 @@ def mutate(ex, step, root, mut, fresh):
         root.mapping.update(upd)
     elif mut == "map_assign":
         root.mapping = {"z": fresh()}
+    elif mut in ("del_child", "del_children", "del_mapping"):
+        try:
+            delattr(root, mut[4:])          # back to the default: a change of the link like any other
+        except Exception:
+            pass
     else:
         raise AssertionError(mut)
 
@@ -161,10 +166,16 @@ def harness_factory(lname, k, nargs, twins=False):
             trace.append(mut)
             new_first = getattr(root, steps[0])
             # intermediate link changed (first link): '.' reports, ':' does not
-            first_link_changed = (steps[0] == "child" and mut in ("child=", "child=None")) or \
-                (steps[0] == "children" and mut in ("assign_list",)) or (steps[0] == "mapping" and mut == "map_assign")
+            first_link_changed = (steps[0] == "child" and mut in ("child=", "child=None", "del_child")) or \
+                (steps[0] == "children" and mut in ("assign_list", "del_children")) or (steps[0] == "mapping" and mut in ("map_assign", "del_mapping"))
             if first_link_changed and len(steps) == 1:
                 changed = new_first is not old_first
+                if changed and nargs != 0 and old_first is not None and new_first is not None:
+                    try:
+                        if bool(old_first == new_first):
+                            changed = False      # an EQUAL value is no change for a user handler under the default comparison mode
+                    except Exception:
+                        pass
                 if not first_notifies:
                     ex.check(legacy == [], "a change of a ':' link is not reported to the legacy handler")
                 elif changed and (nargs in (0, 3, 4) or old_first is None) and not (twins and old_first is not None and new_first is not None
